@@ -264,3 +264,18 @@ def run(rep, tier):
     rep.sample({'context': 'unquoted', 'entry_name': 'ab$ ', 'typed': 'vh-argv ab<TAB><Enter>'})
     if rep.outcomes.get('ok:U', 0) < 100:
         rep.machinery.append('vacuity guard: too few passing unquoted completions')
+
+
+def replay(rec):
+    """complete the recorded entry once more in a fresh interactive session"""
+    c = rec['case']
+    ctx = {'unquoted': 'U', 'single-quote': 'S', 'double-quote': 'D', 'cd': 'C'}[c['context']]
+    loc = [l[0] for l in LOCS].index(c.get('location', 'cwd'))
+    name = c['entry_name'][len('PREFIX'):]
+    res = _run_batch((ctx, [name], loc))
+    for r in res:
+        print(r)
+    if any(r[2] not in ('ok', 'machinery') for r in res):
+        print('VIOLATION property=C20 replay=(this file)')
+        return 1
+    return 0
